@@ -114,6 +114,18 @@ def run(prog, chk):
             ok_rest = bool(restores) and all(g.must_follow(x, restores) for x in execs)
             chk.ob('R07.2', f, f.ln, ok_save and ok_clear and ok_rest,
                    '%s: return flag saved (%s), cleared before the body (%s), restored on every normal path (%s)' % (f.short, ok_save, ok_clear, ok_rest), key='activation:' + f.short)
+            # an activation whose result is the return-value register clears the register before the body: a body that ends
+            # without `return` must yield nothing, not the value left behind by an earlier call
+            rv = [x['name'] for x in R.ev['fields'] if x['type'].endswith('Value') and 'return' in x['name'].lower()]
+            if len(rv) == 1 and f.ret and f.ret.endswith('Value'):
+                rets = [x for x in g.nodes if x.kind == 'return' and SX.is_node(x.e.get('e'))]
+                reads = [d for d in g.nodes if d.kind == 'decl' and SX.is_this_member(SX.strip(d.e.get('init')), rv[0])]
+                if reads:
+                    clr = [n for n, l, r, op in g.writes() if SX.is_this_member(SX.strip(l), rv[0]) and SX.is_node(SX.strip(r)) and
+                           SX.strip(r).get('k') in ('initlist', 'construct') and not SX.real_args(SX.strip(r)) and not (SX.strip(r).get('items') or [])]
+                    okc = bool(clr) and all(g.must_precede(clr, x) for x in execs)
+                    chk.ob('R07.2', f, f.ln, okc, '%s clears the return-value register before running the body (a body without `return` yields an empty value, not a stale one)' % f.short,
+                           key='activation-value:' + f.short)
     chk.count('statement-executing loops', nloops, 6)
     # ---- R07.3 block/for/call scopes are closed on every normal path (a `return` that jumps past endScope leaves the callee's
     # scope on the stack: the caller then reads the dead callee's same-named variables) ----------------------------------
